@@ -57,7 +57,7 @@ def Labels.lookup (L : Labels) (regs : List String) (sc : Scope) (name : String)
     match (L.file.find? fun e => e.1 == sc.fileId && e.2.1 == name).map (·.2.2) with
     | some v => .ok v
     | none =>
-      if regs.contains name then .error .unresolvedLabel
+      if isRegName regs name then .error .unresolvedLabel
       else match assocGet L.glob name with
         | some v => .ok v
         | none => .error .unresolvedLabel
@@ -237,13 +237,13 @@ def readFile (cfg : Cfg) (files : List (List Stmt)) : Nat → Nat → ReadSt →
             let (ls, st') ← readFile cfg files fuel g st
             go rest sc zone mute cs st' (acc ++ ls)
           | .label name =>
-            if cfg.regs.contains name then .error .keywordLabel else
+            if isRegName cfg.regs name then .error .keywordLabel else
             if labelKind name ≠ 2 then
               let sc' := Scope.loc f st.nextLoc
               go rest sc' zone mute cs { st with nextLoc := st.nextLoc + 1 } (acc ++ [mk sc' zone (mute > 0)])
             else go rest sc zone mute cs st (acc ++ [mk sc zone (mute > 0)])
           | .const name e =>
-            if cfg.regs.contains name then .error .keywordLabel else
+            if isRegName cfg.regs name then .error .keywordLabel else
             match valueE (envOf st.labels cfg.regs sc) e with
             | .error er => .error er
             | .ok v => do
